@@ -110,3 +110,26 @@ def run(R):
                 if w[0] == 'variant' and w[2] == 'Ready' and strip_refs(w[3][0])[0] == 'agg' and strip_refs(w[3][0])[1].get('variant') == 'None':
                     okn = any(vals == [radt['Empty']] for s, vals, tm in eb.edge_guards(bb))
         R.check(okn, 'C12.R2', 'empty-body-yields-nothing', site(eb), 'ResponseBodyKind::Empty -> Ready(None)')
+
+    # ---------------------------------------------------------------- R5 type-level witnesses (E4)
+    R.describe('C12.R5', 'compile-fail witnesses: an interceptor is a function of Request<()> — it cannot name, read or replace the request body; '
+                         'Request::into_http / SanitizeHeaders (the un-sanitised conversion used for the interceptor output) are not reachable from outside tonic')
+    with R.guard('C12.R5', 'witness'):
+        import witness
+        U = ['use tonic::{Request, Status};', 'fn takes_interceptor<I: tonic::service::Interceptor>(_i: I) {}']
+        W = [
+            dict(id='interceptor_sees_unit_body', code='E0631', common=U, what='a closure over Request<Vec<u8>> is not an Interceptor',
+                 fail=['takes_interceptor(|r: Request<Vec<u8>>| -> Result<Request<Vec<u8>>, Status> { Ok(r) });'],
+                 twin=['takes_interceptor(|r: Request<()>| -> Result<Request<()>, Status> { Ok(r) });']),
+            dict(id='interceptor_cannot_return_other_body', code='E0271', common=U, what='an interceptor must give back Request<()>',
+                 fail=['takes_interceptor(|r: Request<()>| -> Result<Request<u8>, Status> { Ok(r.map(|_| 0u8)) });'],
+                 twin=['takes_interceptor(|r: Request<()>| -> Result<Request<()>, Status> { Ok(r.map(|_| ())) });']),
+            dict(id='interceptor_body_is_unit', code='E0308', common=U, what='what an interceptor can take out of its request is ()',
+                 fail=['takes_interceptor(|r: Request<()>| -> Result<Request<()>, Status> { let _b: Vec<u8> = r.into_inner(); Err(Status::ok("")) });'],
+                 twin=['takes_interceptor(|r: Request<()>| -> Result<Request<()>, Status> { let _b: () = r.into_inner(); Err(Status::ok("")) });']),
+            dict(id='into_http_not_public', code='E0624', common=U, what='Request::into_http (with its SanitizeHeaders switch) is crate-private',
+                 fail=['let _ = Request::new(()).into_http(http::Uri::default(), http::Method::POST, http::Version::HTTP_2, todo!());'],
+                 twin=['let _ = Request::new(()).into_parts();']),
+        ]
+        n = witness.run_witnesses(R, 'C12.R5', W)
+        R.floor('C12.R5', 'witness programs type-checked', n, 2 * len(W))
